@@ -92,7 +92,7 @@ func ZZC01Cut() {
 	vn.Assume(errQ == nil)
 
 	// ---- execution: the same two forms over real channels ----
-	version := []Execution_Version{NORMAL_ASYNC, NORMAL_SYNC}[vn.Pick(2)]
+	version := []Execution_Version{NORMAL_ASYNC, NORMAL_SYNC, NON_POLARIZED_SYNC}[vn.Pick(3)]
 	w := zzNewStepWorld(version)
 	c := w.re.CreateFreshChannel("c")
 	piQ := w.re.CreateFreshChannel("q")
@@ -101,9 +101,18 @@ func ZZC01Cut() {
 	runQ := zzClientForm(qk, nmQ, c, w.ch[2], Name{Ident: "x"}, Name{Ident: "y"}, rq, rq2)
 	procP := NewProcess(runP, []Name{c}, nil, LINEAR, zzPos())
 	procQ := NewProcess(runQ, []Name{piQ}, nil, LINEAR, zzPos())
-	go runP.Transition(procP, w.re)
-	go runQ.Transition(procQ, w.re)
-	vn.Drain()
+	// both sides run as goroutines under every interleaving of their channel operations
+	vn.ChanSink(w.re.heartbeat)
+	vn.SchedStart()
+	if version == NON_POLARIZED_SYNC {
+		go runP.TransitionNP(procP, w.re)
+		go runQ.TransitionNP(procQ, w.re)
+	} else {
+		go runP.Transition(procP, w.re)
+		go runQ.Transition(procQ, w.re)
+	}
+	vn.SchedQuiesce()
+	vn.SchedStop()
 	// a panic of either process (interpreter error) ends the path as a violation by itself.
 	// The message was consumed and exactly one continuation of the receiving side resumed.
 	pReceives := pk == 1 || pk == 3 || pk == 6
@@ -161,7 +170,8 @@ func ZZC01CutFwd() {
 	vn.Assume(typedQ.typecheckForm(produceNameTypesCtx(gQ), nil, provQ.T, env.Env, FunctionTypesEnv{}, genv) == nil)
 
 	// ---- execution ----
-	w := zzNewStepWorld(NORMAL_ASYNC)
+	version := []Execution_Version{NORMAL_ASYNC, NORMAL_SYNC}[vn.Pick(2)]
+	w := zzNewStepWorld(version)
 	c := w.re.CreateFreshChannel("c")
 	d := w.re.CreateFreshChannel("d")
 	piQ := w.re.CreateFreshChannel("q")
@@ -179,10 +189,14 @@ func ZZC01CutFwd() {
 	procP := NewProcess(runP, []Name{c}, nil, LINEAR, zzPos())
 	procF := NewProcess(runF, []Name{d}, nil, LINEAR, zzPos())
 	procQ := NewProcess(runQ, []Name{piQ}, nil, LINEAR, zzPos())
+	// the three processes run under every interleaving of their channel operations
+	vn.ChanSink(w.re.heartbeat)
+	vn.SchedStart()
 	go runP.Transition(procP, w.re)
 	go runF.Transition(procF, w.re)
 	go runQ.Transition(procQ, w.re)
-	vn.Drain()
+	vn.SchedQuiesce()
+	vn.SchedStop()
 	pReceives := pk == 1 || pk == 3 || pk == 6
 	var resumed int
 	if pReceives {
